@@ -311,12 +311,15 @@ class FortranAST:
                 inc.scope_objs = []
                 inc.file = None
 
+    def resolve_inheritance(self, obj_tree, link_version):
+        for inherit_obj in self.inherit_objs:
+            inherit_obj.resolve_inherit(obj_tree, inherit_version=link_version)
+
     def resolve_links(self, obj_tree, link_version):
         # Cached type resolutions may point into files that changed or vanished
         for var in self.variable_list:
             var.type_obj = None
-        for inherit_obj in self.inherit_objs:
-            inherit_obj.resolve_inherit(obj_tree, inherit_version=link_version)
+        self.resolve_inheritance(obj_tree, link_version)
         for linkable_obj in self.linkable_objs:
             linkable_obj.resolve_link(obj_tree)
 
